@@ -106,7 +106,7 @@ class Stream(pydyf.Stream):
             self.set_color_special(None, stroke, lightness, a, b)
         else:
             LOGGER.warn('Unsupported color space %s, use sRGB instead', color.space)
-            self.set_color_rgb(*channels, stroke)
+            self.set_color_rgb(*(channel or 0 for channel in channels), stroke)
 
     def set_font_size(self, font, size):
         if (font, size) == self._current_font:
